@@ -54,9 +54,12 @@ CRATE_FINDERS = {
     "file": ("src/core/file.rs", "units/file/finder_test.rs"),
     "lock": ("src/core/server.rs", "units/lock/finder_test.rs"),
     "plan": ("src/app/run.rs", "units/plan/finder_test.rs"),
+    "checkpoint": ("src/app/analyze.rs", "units/checkpoint/finder_test.rs"),
 }
 # further finders of a unit (integration tests driving the binary)
 EXTRA_FINDERS = {"log": [("tests/", "units/log/finder_show_test.rs"), ("tests/", "units/log/finder_tail_test.rs")], "config": [("tests/", "units/config/finder_generate_test.rs")]}
+# units whose only finder is an integration test
+CRATE_FINDERS["cli"] = ("tests/", "units/cli/finder_outdelete_test.rs")
 CACHE = os.path.join(U.VERIF, ".cache")
 
 
